@@ -747,6 +747,16 @@ val has_fb : expr -> bool
 
 val vhas_fb : value -> bool
 
+type call = (operator * char list) * char list
+
+val render_tr :
+  oracle2 -> (operator -> (char list -> char list -> sres out) option) ->
+  expr -> (sres * call list) out
+
+val postorder : expr -> operator list
+
+val postorder_v : value -> operator list
+
 type bytes = char list
 
 val bval : char -> n
